@@ -69,6 +69,10 @@ SCALAR_ATOMS = {
     "pow2(int)@0": (_powc(2), 0.0, "jet", 1.3),
     "pow1(float)@0": (_powc(1.0), 0.0, "jet", 1.3),
     "recip@0": (lambda v: ["bin", "/", ["raw", 1.0, "float"], v], 0.0, "-big", 1.3),
+    # ratios whose numerator and denominator both depend on the variable, at the pole of the denominator
+    "ratio:(v+1)/v@0": (lambda v: ["bin", "/", ["bin", "+", v, ["raw", 1.0, "float"]], v], 0.0, "-big", 1.3),
+    "ratio:exp(v)/v@0": (lambda v: ["bin", "/", ["fn", "exp", v], v], 0.0, "-big", 1.3),
+    "ratio:v/(v-1)@1": (lambda v: ["bin", "/", v, ["bin", "-", v, ["raw", 1.0, "float"]]], 1.0, "-big", 2.3),
     "asin@1": (_fn("asin"), 1.0, "+big", 0.4),
     "asin@-1": (_fn("asin"), -1.0, "+big", 0.4),
     "acos@1": (_fn("acos"), 1.0, "-big", 0.4),
@@ -126,6 +130,7 @@ def info(tier):
     cells += [f"deep:{a}|{path}" for a in list(SCALAR_ATOMS) + list(VECTOR_ATOMS) for path in ("gradient", "jacobian", "hessian")]
     cells += [f"{c}|{path}" for c, _, _ in composite_items() for path in ("gradient", "jacobian", "hessian")]
     cells += [f"bounded:{a}|{path}" for a in list(SCALAR_ATOMS) + list(VECTOR_ATOMS) for path in ("gradient", "jacobian", "hessian")]
+    cells += [f"masked|{path}" for path in ("gradient", "jacobian", "hessian")]
     return {
         "level": LEVEL,
         "rule": "separable sums of singular atoms (17 scalar, 7 vectorised, L2 norm) with coefficients of both signs and a "
@@ -220,6 +225,8 @@ def run_item(rec, rng, item):
             elif sidx:
                 point[target], shifted[target] = sv, stand
                 sing[target] = (expect, coef)
+                if expect == "finite-only":
+                    sing[target] = ("finite-only", coef)
             else:
                 point[target] = shifted[target] = stand + 0.1
         elif aname == "norm2":
@@ -274,7 +281,7 @@ def run_item(rec, rng, item):
     for i, nm in enumerate(V):
         if nm in sing:
             exp, coef = sing[nm]
-            expected[i] = ("exact", expected_entry(exp, coef))
+            expected[i] = ("finite-only", None) if exp == "finite-only" else ("exact", expected_entry(exp, coef))
         else:
             expected[i] = ("jet", float(j.g[i]))
 
@@ -493,6 +500,58 @@ def run_composite(rec, rng, cell, node, spt, k):
     rec.sample(show, cap=3)
 
 
+def masked_items():
+    """(cell, node, point, {variable: exact partial}): a singular term switched off by a zero weight that is NOT a float (an int from a
+    weight list, a bool from a mask, a NumPy integer) plus a regular term in the same variable, at the switched-off term's singular
+    point: the entry is the regular term's derivative."""
+    a, b_ = ["var", "a"], ["var", "b"]
+    out = []
+    for zname, zero in (("int-0", ["raw", 0, "int"]), ("False", ["raw", False, "bool"]), ("np.int64(0)", ["raw", 0, "npi64"]), ("float-0", ["raw", 0.0, "float"]),
+                        ("Constant(0)", ["const", 0, "int"])):
+        for aname, atom, sv in (("abs", ["fn", "abs", a], 0.0), ("sqrt", ["fn", "sqrt", a], 0.0), ("log", ["fn", "log", a], 0.0), ("recip", ["bin", "/", ["raw", 1.0, "float"], a], 0.0)):
+            node = ["bin", "+", ["bin", "+", ["bin", "*", zero, atom], ["bin", "*", ["raw", 3.0, "float"], a]], ["bin", "**", b_, ["raw", 2, "int"]]]
+            out.append((f"masked:{zname}*{aname}", node, {"a": sv, "b": 1.5}, {"a": 3.0, "b": 3.0}))
+            node2 = ["bin", "+", ["bin", "*", atom, zero], ["bin", "*", a, b_]]
+            out.append((f"masked:{aname}*{zname}", node2, {"a": sv, "b": 1.5}, {"a": 1.5, "b": sv}))
+    return out
+
+
+def run_masked(rec, rng, cell, node, pt, partials, k):
+    from optyx.core import autodiff as AD
+    from optyx.core import compiler as C
+
+    rec.case({"masked": cell, "k": k}, nontrivial=True)
+    V = ["a", "b"] if k % 2 == 0 else ["b", "zz", "a"]
+    point = {"zz": 0.3, **pt}
+    show = {"expr": A.render(node), "V": V, "point": {nm: point[nm] for nm in V}}
+    try:
+        b = B.Builder(DECLS)
+        e = b.S(node)
+    except Exception as ex:
+        rec.events["unsupported-build:" + type(ex).__name__] += 1
+        return
+    Vobjs = b.variables(V)
+    x = B.point_array(V, point)
+    for route, mk in (("gradient", lambda: C.compile_gradient(e, Vobjs)), ("jacobian", lambda: AD.compile_jacobian([e], Vobjs)), ("hessian", lambda: AD.compile_hessian(e, Vobjs))):
+        rec.cmp(1, f"{cell.split('*')[0].split(':')[0]}|{route}")
+        try:
+            with np.errstate(all="ignore"):
+                got = np.asarray(mk()(x.copy()), dtype=float)
+        except Exception as ex:
+            rec.violation(f"{route}:raises-at-singular-point:{type(ex).__name__}", {"show": show, "error": repr(ex)[:200], "cell": cell})
+            continue
+        if not np.all(np.isfinite(got)):
+            rec.violation(f"{route}(masked):non-finite-entry", {"show": show, "got": repr(got.reshape(-1).tolist()), "cell": cell})
+            continue
+        if route != "hessian":
+            g = got.reshape(-1)
+            for i, nm in enumerate(V):
+                want = partials.get(nm, 0.0)
+                if not close(g[i], want, RTOL, 10.0)[0]:
+                    rec.violation(f"{route}(masked):regular-entry-changed", {"show": show, "entry": nm, "got": float(g[i]), "want": want, "cell": cell})
+                    break
+
+
 def _sumsq(vec, size):
     n = None
     for i in range(size):
@@ -572,6 +631,10 @@ def run(ctx, rec):
             k += 1
             if ctx.mine(k):
                 run_composite(rec, rng, cell, node, spt, k)
+    for cell, node, pt, partials in masked_items():
+        k += 1
+        if ctx.mine(k):
+            run_masked(rec, rng, cell, node, pt, partials, k)
     n = 0
     while n < N_RANDOM[ctx.tier] and not rec.out_of_time():
         n += 1
